@@ -13,6 +13,9 @@ pub struct C02 {
     pub family: &'static str,
     pub faults: bool,
     pub p2p: bool,
+    /// after the first checked window a better master with a slightly different clock takes over
+    /// (scripted masters; the slave changes parent directly, Slave -> Slave)
+    pub switch: bool,
     pub quick_runs: u64,
     pub thorough_runs: u64,
 }
@@ -82,7 +85,7 @@ impl Check for C02 {
         let delay_log = *ch.pick(S_CFG, &[0i8, -1, -2, -3, 1]);
         let announce_log = *ch.pick(S_CFG, &[0i8, 1, -1]);
         let quantum = *ch.pick(S_CFG, &[0u64, 1, 8]);
-        let one_step_ref = ch.chance(S_CFG, 1, 3);
+        let one_step_ref = ch.chance(S_CFG, 1, 3) || self.switch;
         // latency of the hosts' transmit-timestamp path: with more than a round trip the timestamp of a
         // Delay_Req reaches the port after the matching Delay_Resp
         w.hostf.tx_ts_latency = *ch.pick(S_CFG, &[0u128, 0, 0, 0, 100 * US, 1500 * US, 10 * MS]);
@@ -121,7 +124,7 @@ impl Check for C02 {
         if one_step_ref {
             let mut m = RefMaster::new(0, seg, Pid::new([0x01, 0, 0, 0, 0, 0, 0, 0x77], 1), GmData::simple([0x01, 0, 0, 0, 0, 0, 0, 0x77], 10), announce_log);
             m.sync_log = sync_log;
-            m.two_step = false;
+            m.two_step = self.switch && ch.boolean(S_CFG);
             w.attach_script(seg, 0);
             refm = Some(m);
         } else {
@@ -267,7 +270,97 @@ impl Check for C02 {
                 }
             }
         }
+        // ---- phase 2 (master-change family): a better master whose clock differs by a small amount
+        let mut switch_desc = serde_json::Value::Null;
+        if self.switch && t_slave.is_some() && evals > 0 {
+            let delta_ns: i128 = *ch.pick(S_WORK, &[300_000i128, 5_000, 50_000, -700_000, 900_000, 5_000_000, -20_000, 0]);
+            let a_off = refm.as_ref().map(|r| r.offset).unwrap_or(0);
+            let b_id = [0x00, 0, 0, 0, 0, 0, 0, 0x55];
+            let mut b = RefMaster::new(1, seg, Pid::new(b_id, 1), GmData::simple(b_id, 5), announce_log);
+            b.sync_log = sync_log;
+            b.two_step = ch.boolean(S_WORK);
+            b.offset = a_off + delta_ns * NS as i128;
+            w.attach_script(seg, 1);
+            b.start(&mut w, ch.range(S_WORK, 1, 999) as u128 * MS);
+            // the old master falls silent a few intervals later, or keeps going
+            let a_silent_at: Option<Tt> = if ch.boolean(S_WORK) { Some(w.now() + ch.range(S_WORK, 0, 8) as u128 * sync_units) } else { None };
+            w.out.fault("better_master_takes_over");
+            let t0 = w.now();
+            let b_off = b.offset;
+            let mut t_b: Option<Tt> = None;
+            let mut from2: Option<Tt> = None;
+            let mut until2: Tt = t0 + 60 * SEC + 40 * sync_units + t_settle(sync_units) + 100 * sync_units + 60 * SEC;
+            let mut worst2: i128 = 0;
+            let mut evals2 = 0u64;
+            let mut steps2 = 0u64;
+            let mut first_bad2: Option<(Tt, i128)> = None;
+            let mut log_seen2 = w.nodes[sn].clock.borrow().log.len();
+            loop {
+                let Some(st) = w.step(ch, until2) else { break };
+                match st {
+                    Stepped::Script { tag, a, .. } => {
+                        let handled = refm.as_mut().map(|m| m.on_script(&mut w, tag, a, ch)).unwrap_or(false);
+                        if !handled {
+                            b.on_script(&mut w, tag, a, ch);
+                        }
+                    }
+                    Stepped::ScriptRx { endpoint, event, frame, .. } => {
+                        if let Some(m) = refm.as_mut() {
+                            m.on_rx(&mut w, endpoint, event, &frame, ch);
+                        }
+                        b.on_rx(&mut w, endpoint, event, &frame, ch);
+                    }
+                    _ => {}
+                }
+                let now = w.now();
+                if let (Some(at), Some(m)) = (a_silent_at, refm.as_mut()) {
+                    if now >= at {
+                        m.active = false;
+                    }
+                }
+                if t_b.is_none() {
+                    let pd = w.nodes[sn].inst.parent_ds();
+                    if w.nodes[sn].ports[0].state() == PState::Slave && pd.parent_port_identity.clock_identity.0 == b_id {
+                        t_b = Some(now);
+                        from2 = Some(now + t_settle(sync_units));
+                        until2 = now + t_settle(sync_units) + 100 * sync_units + 60 * SEC;
+                    }
+                }
+                if let Some(from) = from2 {
+                    let m = w.nodes[sn].clock.borrow();
+                    if now >= from {
+                        let off = m.local_at(now) - (now as i128 + REF_EPOCH as i128 + b_off);
+                        evals2 += 1;
+                        worst2 = worst2.max(off.abs());
+                        if off.abs() > bound && first_bad2.is_none() {
+                            first_bad2 = Some((now, off));
+                        }
+                        for e in &m.log[log_seen2..] {
+                            if matches!(e.cmd, ClockCmd::Step { .. }) && e.at >= from {
+                                steps2 += 1;
+                            }
+                        }
+                    }
+                    log_seen2 = m.log.len();
+                }
+            }
+            let key2 = format!("sync_log={sync_log} phase=after_master_change");
+            switch_desc = json!({"new_master_clock_ahead_ns": delta_ns as i64, "old_master_silent": a_silent_at.is_some(), "slave_of_new_master_at_s": t_b.map(tt_to_secs), "worst_offset_ns_after_settle": worst2 as f64 / NS as f64, "evaluations": evals2});
+            if t_b.is_none() || evals2 == 0 {
+                w.out.violate("C02", "C02.never_became_slave_or_never_checked", key2, format!("the port never became slave of the better master within {:.0} s: {switch_desc}", tt_to_secs(until2 - t0)));
+            } else {
+                w.out.probe("checked_after_master_change");
+                if let Some((at, off)) = first_bad2 {
+                    w.out.violate("C02", "C02.offset_exceeds_bound_after_settle", key2.clone(), format!("after the change of master: true offset to the new master {:.1} ns at t={:.3}s exceeds bound {:.1} ns (worst {:.1} ns); {switch_desc}", off as f64 / NS as f64, tt_to_secs(at), bound as f64 / NS as f64, worst2 as f64 / NS as f64));
+                }
+                if steps2 > 0 {
+                    w.out.violate("C02", "C02.clock_stepped_after_settle", key2, format!("{steps2} step_clock calls after the settle time that follows the change of master; {switch_desc}"));
+                }
+                evals += evals2;
+            }
+        }
         let params = json!({
+            "master_change": switch_desc,
             "delay_us": (delay / US) as u64, "jitter_us": (jitter / US) as u64, "sync_log": sync_log, "delay_log": delay_log, "announce_log": announce_log,
             "quantum_ns": quantum, "one_step_reference_master": one_step_ref, "initial_offset_ns": offset_ns, "relative_drift_ppm": rel_drift_ppt as f64 / 1e6,
             "faults": self.faults, "p2p": p2p, "bound_ns": bound as f64 / NS as f64, "worst_offset_ns_after_settle": worst as f64 / NS as f64,
@@ -298,7 +391,7 @@ impl Check for C02 {
         }
         // settle-time statistic for the batch-level oracle: last instant (since slave) at which the
         // bound was exceeded, in 20ths of the nominal time 60 s + 150 I
-        if !self.faults && !self.p2p && t_slave.is_some() {
+        if !self.faults && !self.p2p && !self.switch && t_slave.is_some() {
             let nominal = 60 * SEC + 150 * sync_units;
             let bin = (last_bad_any * 20 / nominal).min(99);
             let class = sync_log.max(delay_log);
